@@ -121,3 +121,117 @@ def import_fallback(ctx, keys):
         r.check(False, "unguarded fallback", IO, "import_grid", min(unguarded), "unguarded fallback", "the fallback key overwrites the physical tags unconditionally")
     t = ast.parse("domain_indices is None or _np.any(domain_indices == 0)", mode="eval").body
     r.must_fire(bool(dispatch.value(t, _env("domain_indices", "zero and non-zero"))), "fallback whenever some tag is zero")
+
+
+# ---------------------------------------------------------------- export(): abstract execution of its dispatch
+
+
+class _Subst(ast.NodeTransformer):
+    def __init__(self, sets):
+        self.sets = sets
+        self.depth = 0
+
+    def visit_Name(self, node):
+        v = self.sets.get(node.id)
+        if isinstance(v, str) and self.depth < 10:
+            self.depth += 1
+            try:
+                return self.visit(ast.parse(v, mode="eval").body)
+            finally:
+                self.depth -= 1
+        return node
+
+
+def _resolved(text, sets):
+    """Canonical form of an effect's value with the locals assigned on the executed path substituted."""
+    node = _Subst(sets).visit(ast.parse(text, mode="eval").body)
+    return roles.canon(node, roles._NoDefs()).replace(" ", "")
+
+
+def _canon(text):
+    return roles.canon_text(text).replace(" ", "")
+
+
+def export_run(exp, ext, data_type, cplx, what):
+    """Effects of export() for a file extension, a data type (None: grid export) and real/complex data."""
+    body = [s for s in exp.body if not (isinstance(s, ast.Expr) and isinstance(s.value, ast.Constant)) and not isinstance(s, (ast.Import, ast.ImportFrom))]
+    p = [a.arg for a in exp.args.args]
+    env = {"extension": ext, "write_binary": True}
+    if what == "grid":
+        env.update({"grid": "‹grid›", "grid_function": None, "data_type": None})
+    elif what == "both":
+        env.update({"grid": "‹grid›", "grid_function": "‹gf›", "data_type": data_type})
+    else:
+        env.update({"grid": None, "grid_function": "‹gf›", "data_type": data_type})
+    for c in ast.walk(exp):
+        if isinstance(c, ast.Call) and unparse(c.func).split(".")[-1] == "iscomplexobj":
+            env[unparse(c)] = cplx  # abstract predicate: the evaluated data are complex / real
+    effs = dispatch.effects(body, env, "export", pinned=("extension",))
+    sets = {e[1]: e[2] for e in effs if e[0] == "set"}
+    stores = [(e[1], e[2]) for e in effs if e[0] == "store"]
+    return effs, sets, stores
+
+
+def export_dispatch(ctx, first_key):
+    r = ctx.rule("EXPORT-DISPATCH", "export(), executed abstractly per (file type, grid / node data / element data, real / complex): .msh files carry the domain indices under the key the importer reads first and use the tag-preserving format; node data become point data and element data cell data (real and imaginary part for complex values) of the transformed evaluation; other data types and ambiguous calls are rejected", 10)
+    exp = ctx.repo.mod(IO).fn("export")
+    DOM = _canon("grid.domain_indices.reshape((1, -1))")
+
+    def key_of(target):
+        t = ast.parse(target, mode="eval").body
+        return (unparse(t.value), t.slice.value) if isinstance(t, ast.Subscript) and isinstance(t.slice, ast.Constant) else (None, None)
+
+    # (1) grid export, Gmsh and other formats
+    for ext in (".msh", ".vtu"):
+        effs, sets, stores = export_run(exp, ext, None, False, "grid")
+        keys = {key_of(t)[1]: _resolved(v, {k: x for k, x in sets.items() if k != "grid"}) for t, v in stores if key_of(t)[0] == "cell_data"}
+        if ext == ".msh":
+            ok = keys.get(first_key) == DOM and sets.get("file_format") == "gmsh22"
+            msg = "for a .msh file export stores %s under cell-data keys and uses file format %r: the importer reads %r first and needs the Gmsh 2.2 writer to find the domain indices there" % (sorted(k for k in keys if k), sets.get("file_format"), first_key)
+        else:
+            ok = first_key not in keys and any(v == DOM for v in keys.values())
+            msg = "for a non-Gmsh file export stores %s (Gmsh tag keys in a format that does not know them, or no domain indices at all)" % sorted(k for k in keys if k)
+        r.check(ok, "grid export to %s" % ext, IO, "export", exp.lineno, "grid export to " + ext, msg)
+        pd = sets.get("point_data", None)
+        r.check(pd is None or pd == "None", "grid export to %s has no point data" % ext, IO, "export", exp.lineno, "grid export point data", "a pure grid export writes point data `%s`" % pd)
+    # (2) grid-function export
+    for dt, src in (("node", "evaluate_on_vertices"), ("element", "evaluate_on_element_centers")):
+        D = "_transform_array(grid_function.%s(), transformation).T" % src
+        for cplx in (True, False):
+            effs, sets, stores = export_run(exp, ".vtu", dt, cplx, "gf")
+            cell = {key_of(t)[1]: _resolved(v, sets) for t, v in stores if key_of(t)[0] == "cell_data"}
+            data_keys = {k: v for k, v in cell.items() if k in ("real", "imag", "data")}
+            pd = sets.get("point_data")
+            if dt == "node":
+                want = {"real": _canon("_np.real(%s)" % D), "imag": _canon("_np.imag(%s)" % D)} if cplx else {"data": _canon(D)}
+                got = None
+                if isinstance(pd, str) and pd != "None":
+                    node = ast.parse(pd, mode="eval").body
+                    if isinstance(node, ast.Dict) and all(isinstance(k, ast.Constant) for k in node.keys):
+                        rest = {k: v for k, v in sets.items() if k != "point_data"}
+                        got = {k.value: _resolved(unparse(v), rest) for k, v in zip(node.keys, node.values)}
+                ok = got == want and not data_keys
+                msg = "node data (%s): point data are `%s`, expected `%s`; cell-data entries %s" % ("complex" if cplx else "real", got, want, sorted(data_keys))
+            else:
+                want = {"real": "_np.array([_np.real(%s)])" % D, "imag": "_np.array([_np.imag(%s)])" % D} if cplx else {"data": "_np.array([%s])" % D}
+                # cell data are one array per cell block: the list wrapper is part of meshio's layout
+                wantc = {k: roles.canon(ast.parse(v, mode="eval").body.args[0], roles._NoDefs()).replace(" ", "") for k, v in want.items()}
+                gotc = {}
+                for t, v in stores:
+                    if key_of(t)[0] == "cell_data" and key_of(t)[1] in ("real", "imag", "data"):
+                        node = _Subst(sets).visit(ast.parse(v, mode="eval").body)
+                        inner = node.args[0] if isinstance(node, ast.Call) and unparse(node.func).split(".")[-1] in ("array", "asarray") and node.args else node
+                        gotc[key_of(t)[1]] = roles.canon(inner, roles._NoDefs()).replace(" ", "")
+                ok = gotc == wantc and (pd is None or pd == "None")
+                msg = "element data (%s): cell data are %s, expected %s; point data `%s`" % ("complex" if cplx else "real", gotc, wantc, pd)
+            r.check(ok, "%s data, %s" % (dt, "complex" if cplx else "real"), IO, "export", exp.lineno, "export of %s data" % dt, msg)
+    # (3) rejections
+    effs, _, _ = export_run(exp, ".vtu", "face", False, "gf")
+    r.check(any(e[0] == "raise" for e in effs), "unknown data type rejected", IO, "export", exp.lineno, "unknown data_type", "data_type='face' is not rejected")
+    effs, _, _ = export_run(exp, ".vtu", "node", False, "both")
+    r.check(any(e[0] == "raise" for e in effs), "grid and grid function together rejected", IO, "export", exp.lineno, "grid and grid_function", "passing both a grid and a grid function is not rejected")
+    bad = ast.parse("def export(filename, grid=None, grid_function=None, data_type=None, transformation=None, write_binary=True):\n    _, extension = os.path.splitext(filename)\n    file_format = None\n"
+                    "    if extension != '.msh':\n        gmsh = True\n        file_format = 'gmsh22'\n    else:\n        gmsh = False\n    cell_data = {}\n    point_data = None\n"
+                    "    if gmsh:\n        cell_data['gmsh:physical'] = grid.domain_indices.reshape((1, -1))\n    else:\n        cell_data['domain_index'] = grid.domain_indices.reshape((1, -1))\n").body[0]
+    _, sets, stores = export_run(bad, ".msh", None, False, "grid")
+    r.must_fire(not any(key_of(t)[1] == "gmsh:physical" for t, v in stores), "Gmsh tags written for every extension except .msh")
